@@ -19,8 +19,7 @@ inductive DescOf (c : Cfg) : Nat → Nat → Prop
 theorem finishRun_spec {c : Cfg} {st st' : StB} {s : Nat} {x : Exit} {pick : Nat}
     (h : finishRun c st s x pick = some st') :
     ∃ r a', stepA c st.a (.finish s r) = some a' ∧
-      st' = { st with a := a', pcB := setAt st.pcB s .over,
-                      failT := setAt st.failT s (x == .timeout), failC := setAt st.failC s (x == .critical) } := by
+      st' = { st with a := a', pcB := setAt st.pcB s .over, failC := setAt st.failC s (x == .critical) } := by
   unfold finishRun at h
   split at h
   · cases h
